@@ -6,6 +6,7 @@ import (
 	"encoding/binary"
 	"fmt"
 	"io"
+	"strings"
 	"sync/atomic"
 	"time"
 
@@ -370,10 +371,25 @@ func c15MakeStream(g *model.Gen, zone model.Name, kind int) c15Stream {
 
 func (s c15Stream) query(zone model.Name, id uint16) *dns.Msg {
 	q := new(dns.Msg)
+	// the zone is asked for under another spelling of its name than the primary stores it under
+	// (0x20-style mixed case, upper case): the same zone
+	zn := zone.Pres()
+	switch id % 3 {
+	case 1:
+		zn = strings.ToUpper(zn)
+	case 2:
+		b := []byte(zn)
+		for i := range b {
+			if i%2 == 0 && b[i] >= 'a' && b[i] <= 'z' {
+				b[i] -= 32
+			}
+		}
+		zn = string(b)
+	}
 	if s.ixfr {
-		q.SetIxfr(zone.Pres(), s.serial, "ns."+zone.Pres(), "hostmaster."+zone.Pres())
+		q.SetIxfr(zn, s.serial, "ns."+zone.Pres(), "hostmaster."+zone.Pres())
 	} else {
-		q.SetAxfr(zone.Pres())
+		q.SetAxfr(zn)
 	}
 	q.Id = id
 	return q
